@@ -383,14 +383,29 @@ def r5_profile(ctx):
                 continue
             odd = odd_leaves(els[k])
             need = Q.sub(("param", "point2"), k)
-            if need not in odd and any(x == ("param", "point2") for c, _v in p.conds for x in walk(c)):
-                continue          # a branch selected by a test on the end points (zero-length segment, ...): judged by the formula comparison only
+            if need not in odd and any(_degenerate(c, v_) for c, v_ in p.conds):
+                continue          # the branch for a degenerate (zero-length) segment, selected by an equality on the end points: judged by the formula comparison only
             whole = ("param", "point2") in odd or any(x[0] == "call" and any(y == ("param", "point2") for y in x[2]) for x in walk(els[k]) if isinstance(x, tuple) and x and x[0] == "call")
             ctx.check("R5", "%s|direction-depends-on-sign-of-d%s|%s" % (qn, nm, tag), True if need in odd else (None if whole else False),
                       "the %s of the profile depends on the sign of point2[%d] - point1[%d]" % (nm, k, k),
                       bad="the %s of the profile depends on point2[%d] only through even functions (distance): profiles towards decreasing %s are mirrored" % (nm, k, nm), fn=qn)
     ok = any(p.exit == "raise" and p.conds and p.conds[-1][0] in (("cmp", "<=", ("param", "size"), const(0)), ("cmp", "<", ("param", "size"), const(1))) and p.conds[-1][1] for p in ctx.paths(qn))
     ctx.check("R5", qn + "|rejects-nonpositive-size", True if ok else False, "size <= 0 raises", bad="non-positive sizes are no longer rejected", fn=qn)
+
+
+def _degenerate(c, val):
+    """the decision selects a measure-zero set of end points: an equality that holds, or `length <= 0` for a non-negative length"""
+    if not any(x == ("param", "point2") for x in walk(c)):
+        return False
+    if c[0] == "cmp" and c[1] in ("==", "is") and val:
+        return True
+    if c[0] == "cmp" and c[1] in ("!=", "isnot") and not val:
+        return True
+    if c[0] == "cmp" and c[1] in ("<=", "<") and val and c[3] == const(0) and c[2][0] == "call" and callee(c[2]) in EVEN_FUNCS:
+        return True
+    if c[0] == "cmp" and c[1] in (">", ">=") and not val and c[3] == const(0) and c[2][0] == "call" and callee(c[2]) in EVEN_FUNCS:
+        return True
+    return False
 
 
 EVEN_FUNCS = {"numpy.hypot", "numpy.abs", "numpy.absolute", "builtins.abs", "numpy.square", "math.hypot", "numpy.fabs", "numpy.linalg.norm"}
